@@ -67,6 +67,7 @@ package hcldec
 // unknown result has the implied type (C08: the value's type always conforms to ImpliedType).
 // verif:func (*BlockMapSpec).decode
 //@ nosafety
+//@ props C08,C06
 //@ requires s.Nested != nil && content != nil
 //@ ensures empty: len(content.Blocks) == 0 ==> conformsTo(ret0, mapN(implied(s.Nested), len(s.LabelNames)))
 //@ ensures unknown: !isKnownVal(ret0) ==> conformsTo(ret0, mapN(implied(s.Nested), len(s.LabelNames)))
@@ -170,6 +171,7 @@ package hcldec
 // CanListVal guard after the unification step); an empty or unknown result has the implied type.
 // verif:func (*BlockListSpec).decode
 //@ nosafety
+//@ props C08,C06
 //@ requires s.Nested != nil && content != nil
 //@ ensures empty: len(content.Blocks) == 0 ==> conformsTo(ret0, listOf(implied(s.Nested)))
 //@ ensures unknown: !isKnownVal(ret0) ==> conformsTo(ret0, listOf(implied(s.Nested)))
@@ -186,6 +188,7 @@ package hcldec
 //@ ensures ret == cty.DynamicPseudoType
 // verif:func (*BlockTupleSpec).decode
 //@ nosafety
+//@ props C08,C06
 //@ requires s.Nested != nil && content != nil
 //@ ensures unknownMarks: !isKnownVal(ret0) && len(ret1) == 0 ==> (exists j int :: { content.Blocks[j] } 0 <= j && j < len(content.Blocks) && (forall k iface :: { marked(ret0, k) } bodyMarked(content.Blocks[j].Body, k) ==> marked(ret0, k)))
 //@ loop 1 invariant rangeindex + 1 <= len(content.Blocks)
@@ -194,6 +197,7 @@ package hcldec
 //@ ensures isKnownVal(ret)
 // verif:func (*BlockObjectSpec).decode
 //@ nosafety
+//@ props C08,C06
 //@ requires s.Nested != nil && content != nil
 //@ ensures unknownMarks: !isKnownVal(ret0) && len(ret1) == 0 ==> (exists j int :: { content.Blocks[j] } 0 <= j && j < len(content.Blocks) && (forall k iface :: { marked(ret0, k) } bodyMarked(content.Blocks[j].Body, k) ==> marked(ret0, k)))
 //@ loop 1 invariant rangeindex + 1 <= len(content.Blocks)
@@ -207,6 +211,7 @@ package hcldec
 // CanSetVal guard after the unification step); an empty or unknown result has the implied type.
 // verif:func (*BlockSetSpec).decode
 //@ nosafety
+//@ props C08,C06
 //@ requires s.Nested != nil && content != nil
 //@ ensures empty: len(content.Blocks) == 0 ==> conformsTo(ret0, setOf(implied(s.Nested)))
 //@ ensures unknown: !isKnownVal(ret0) ==> conformsTo(ret0, setOf(implied(s.Nested)))
